@@ -1,0 +1,45 @@
+//! Verification trace hooks (cargo feature `verif`, off by default).
+//!
+//! Emits one ndjson event per call to the file named by `BLOCKWATCH_VERIF_TRACE`. A no-op when the
+//! variable is unset. Events are ordered by a global sequence number taken under one mutex.
+use std::io::Write;
+use std::sync::{Mutex, OnceLock};
+
+static SINK: OnceLock<Option<Mutex<(u64, std::fs::File)>>> = OnceLock::new();
+
+fn sink() -> &'static Option<Mutex<(u64, std::fs::File)>> {
+    SINK.get_or_init(|| {
+        let path = std::env::var_os("BLOCKWATCH_VERIF_TRACE")?;
+        let file = std::fs::OpenOptions::new()
+            .create(true)
+            .append(true)
+            .open(path)
+            .ok()?;
+        Some(Mutex::new((0, file)))
+    })
+}
+
+/// Whether tracing is on (used to skip building large payloads).
+pub fn enabled() -> bool {
+    sink().is_some()
+}
+
+/// Appends one event `{"seq":n,"ev":ev,...fields}` to the trace file.
+pub fn emit(ev: &str, fields: serde_json::Value) {
+    if let Some(mutex) = sink() {
+        let mut guard = match mutex.lock() {
+            Ok(g) => g,
+            Err(p) => p.into_inner(),
+        };
+        guard.0 += 1;
+        let mut obj = serde_json::Map::new();
+        obj.insert("seq".into(), guard.0.into());
+        obj.insert("ev".into(), ev.into());
+        if let serde_json::Value::Object(map) = fields {
+            obj.extend(map);
+        }
+        let mut line = serde_json::Value::Object(obj).to_string();
+        line.push('\n');
+        let _ = guard.1.write_all(line.as_bytes());
+    }
+}
